@@ -128,3 +128,42 @@ func ZZ_C04_fund_committee_reward_pools() {
 }
 
 var _ = crypto.NewAddress
+
+// DAO grant: HandleMessageDAOTransfer moves Amount from the DAO pool to an account, optionally
+// minting it into the pool first. Conservation: without Mint the total is unchanged, with Mint it
+// grows by exactly Amount; total = sum afterwards; a rejected proposal (outside its height window,
+// or the node rejects all proposals) moves nothing; a failed transfer may not have wrapped anything.
+//
+//zz:harness mode=int unwind=60 maxpaths=60000 timebudget=1200
+//zz:reach C04.dao.ok C04.dao.rejected
+func ZZ_C04_dao_transfer() {
+	sm, _ := zzFSM(10)
+	zzRewardWorld(sm)
+	sup0, _ := sm.GetSupply()
+	zzAssume(sup0.Total < 1<<63)
+	if zzBool("nodeRejectsAll") {
+		sm.proposeVoteConfig = RejectAllProposals
+	}
+	msg := &MessageDAOTransfer{Address: zzAddr(2), Amount: zzN64("amount"), StartHeight: zzU64("start"), EndHeight: zzU64("end"), Mint: zzBool("mint")}
+	zzAssume(msg.Amount < 1<<62)
+	before := zzBalances(sm)
+	err := sm.HandleMessageDAOTransfer(msg)
+	sm.ResetCaches()
+	sum, ok := zzSumWorld(sm)
+	sup, _ := sm.GetSupply()
+	zzAssert("C04.dao.no-component-wraps", ok)
+	if err != nil {
+		zzReach("C04.dao.rejected")
+		return
+	}
+	zzReach("C04.dao.ok")
+	zzAssert("C04.dao.inside-the-proposal-window", msg.StartHeight <= 10 && 10 <= msg.EndHeight && sm.proposeVoteConfig != RejectAllProposals)
+	zzAssert("C04.dao.total-equals-sum", sup.Total == sum)
+	if msg.Mint {
+		zzAssert("C04.dao.mint-creates-exactly-the-grant", sup.Total == sup0.Total+msg.Amount)
+	} else {
+		zzAssert("C04.dao.plain-grant-conserves-the-total", sup.Total == sup0.Total)
+	}
+	after := zzBalances(sm)
+	zzAssert("C04.dao.grantee-receives-exactly-the-amount", after[2] == before[2]+msg.Amount && after[1] == before[1])
+}
